@@ -143,6 +143,106 @@ Proof.
       destruct rkv as [kv|]; [subst rs; reflexivity|destruct Hr as [l ->]; eexists; reflexivity].
 Qed.
 
+(* per-field settings: the two passes of exec_fields_mixed *)
+Definition slot_ok (isc : string -> list fnode -> bool) (sf : string -> list fnode -> option sres)
+           (kn : string * list fnode) (slot : option (option pyval)) : Prop :=
+  match slot with
+  | None => isc (fst kn) (snd kn) = true
+  | Some o => isc (fst kn) (snd kn) = false /\
+              match sf (fst kn) (snd kn) with
+              | None => o = None
+              | Some (SVal v _) => o = Some v
+              | _ => False
+              end
+  end.
+
+Lemma mixed_pass1_refines isc (rf : string -> list fnode -> M (option pyval)) sf :
+  (forall k ns, Rf (rf k ns) (sf k ns)) -> forall fs s rkv ro,
+  spec_fields sf fs = (rkv, ro, false) ->
+  match fst (mixed_pass1 isc rf fs s) with
+  | OVal slots => Forall2 (slot_ok isc sf) fs slots
+  | OExc _ => rkv = None
+  | OCrash _ => False
+  end.
+Proof.
+  intros H. induction fs as [|[k nodes] rest IH]; intros s rkv ro; cbn [spec_fields mixed_pass1].
+  - intros E. cbn. constructor.
+  - destruct (spec_fields sf rest) as [[rkv0 ro0] rc0] eqn:Er.
+    destruct (isc k nodes) eqn:Ec.
+    + assert (Hrc : forall x y, (match sf k nodes with
+                                 | None => (rkv0, ro0, rc0)
+                                 | Some SCrash => (None, ro0, true)
+                                 | Some (SFail o) => (None, o ++ ro0, rc0)
+                                 | Some (SVal v o) => (match rkv0 with Some kv => Some ((k, v) :: kv) | None => None end, o ++ ro0, rc0)
+                                 end) = (x, y, false) -> rc0 = false /\ (rkv0 = None -> x = None)).
+      { intros x y. destruct (sf k nodes) as [[v o|o|]|]; intros E; inversion E; subst; split; auto; intros ->; reflexivity. }
+      intros E. destruct (Hrc _ _ E) as [-> Hn].
+      pose proof (IH s _ _ eq_refl) as Hr.
+      destruct (mixed_pass1 isc rf rest s) as [[slots|l|e] s1]; cbn [fst] in *.
+      * constructor; [exact Ec|exact Hr].
+      * now apply Hn.
+      * exact Hr.
+    + pose proof (H k nodes s) as Hk.
+      destruct (rf k nodes s) as [r s1]. cbn [fst] in Hk.
+      destruct (sf k nodes) as [[v o|o|]|] eqn:Esf; intros E; inversion E; subst; clear E.
+      * pose proof (IH s1 _ _ eq_refl) as Hr.
+        destruct (mixed_pass1 isc rf rest s1) as [[slots|l|e] s2]; cbn [fst] in *.
+        -- constructor; [|exact Hr]. split; [exact Ec|]. cbn [fst snd]. now rewrite Esf.
+        -- now rewrite Hr.
+        -- exact Hr.
+      * destruct Hk as [l ->]. reflexivity.
+      * pose proof (IH s1 _ _ eq_refl) as Hr.
+        destruct (mixed_pass1 isc rf rest s1) as [[slots|l|e] s2]; cbn [fst] in *.
+        -- constructor; [|exact Hr]. split; [exact Ec|]. cbn [fst snd]. now rewrite Esf.
+        -- exact Hr.
+        -- exact Hr.
+Qed.
+
+Lemma mixed_pass2_refines isc (rf : string -> list fnode -> M (option pyval)) sf :
+  (forall k ns, Rf (rf k ns) (sf k ns)) -> forall fs slots, Forall2 (slot_ok isc sf) fs slots -> forall s rkv ro,
+  spec_fields sf fs = (rkv, ro, false) ->
+  match rkv with
+  | Some kv => fst (mixed_pass2 rf fs slots s) = OVal kv
+  | None => exists l, fst (mixed_pass2 rf fs slots s) = OExc l
+  end.
+Proof.
+  intros H fs slots HF. induction HF as [|[k nodes] slot rest srest Hs HF IH]; intros s rkv ro; cbn [spec_fields mixed_pass2].
+  - intros E. inversion E. reflexivity.
+  - destruct (spec_fields sf rest) as [[rkv0 ro0] rc0] eqn:Er.
+    destruct slot as [o|].
+    + destruct Hs as [_ Hs]. cbn [fst snd] in Hs.
+      destruct (sf k nodes) as [[v ov|ov|]|]; try contradiction; intros E; inversion E; subst; clear E.
+      * pose proof (IH s _ _ eq_refl) as Hr. destruct (mixed_pass2 rf rest srest s) as [rs s2]. cbn [fst] in Hr.
+        destruct rkv0 as [kv|]; [subst rs; reflexivity|destruct Hr as [l ->]; eexists; reflexivity].
+      * pose proof (IH s _ _ eq_refl) as Hr. destruct (mixed_pass2 rf rest srest s) as [rs s2]. cbn [fst] in Hr.
+        destruct rkv as [kv|]; [subst rs; reflexivity|destruct Hr as [l ->]; eexists; reflexivity].
+    + pose proof (H k nodes s) as Hk. destruct (rf k nodes s) as [r s1]. cbn [fst] in Hk.
+      destruct (mixed_pass2 rf rest srest s1) as [rs s2] eqn:E2.
+      destruct (sf k nodes) as [[v o|o|]|]; intros E; inversion E; subst; clear E.
+      * pose proof (IH s1 _ _ eq_refl) as Hr. rewrite E2 in Hr. cbn [fst] in Hr.
+        destruct rkv0 as [kv|]; [subst rs; reflexivity|destruct Hr as [l ->]; eexists; reflexivity].
+      * pose proof (IH s1 _ _ eq_refl) as Hr. rewrite E2 in Hr. cbn [fst] in Hr. destruct Hk as [l ->].
+        destruct rkv0 as [kv|]; [subst rs; eexists; reflexivity|destruct Hr as [l' ->]; eexists; reflexivity].
+      * pose proof (IH s1 _ _ eq_refl) as Hr. rewrite E2 in Hr. cbn [fst] in Hr.
+        destruct rkv as [kv|]; [subst rs; reflexivity|destruct Hr as [l ->]; eexists; reflexivity].
+Qed.
+
+Lemma exec_fields_mixed_refines isc (rf : string -> list fnode -> M (option pyval)) sf :
+  (forall k ns, Rf (rf k ns) (sf k ns)) -> forall fs s rkv ro,
+  spec_fields sf fs = (rkv, ro, false) ->
+  match rkv with
+  | Some kv => fst (exec_fields_mixed isc rf fs s) = OVal kv
+  | None => exists l, fst (exec_fields_mixed isc rf fs s) = OExc l
+  end.
+Proof.
+  intros H fs s rkv ro Es. unfold exec_fields_mixed.
+  pose proof (mixed_pass1_refines isc rf sf H fs s _ _ Es) as H1.
+  destruct (mixed_pass1 isc rf fs s) as [[slots|l|e] s1]; cbn [fst] in H1.
+  - exact (mixed_pass2_refines isc rf sf H fs slots H1 s1 _ _ Es).
+  - subst rkv. eexists. reflexivity.
+  - contradiction.
+Qed.
+
 (* complete_object_value = ExecuteSelectionSet on the merged selection sets *)
 Lemma exec_sub_refines rf sf nodes otype value opath :
   rf_refines rf sf -> R (exec_sub sch doc vs cfg rf nodes otype value opath) (spec_object sch doc vs sf nodes otype value opath).
@@ -151,13 +251,9 @@ Proof.
   destruct (spec_collect_fields sch doc vs COLLECT_FUEL otype (flat_map (fun n => fn_sels n) nodes)) as [sub|]; [|exact I].
   destruct (spec_fields (fun k ns => sf otype value opath k ns) sub) as [[rkv ro] rc] eqn:Es.
   destruct rc; [destruct rkv; exact I|].
-  destruct (parent_concurrently cfg).
-  - pose proof (exec_fields_conc_refines _ _ (fun k ns => H otype value opath k ns) sub s _ _ Es) as Hf.
-    destruct (exec_fields_conc _ sub s) as [r s1]. cbn [fst] in Hf.
-    destruct rkv as [kv|]; [subst r; reflexivity|destruct Hf as [l ->]; eexists; reflexivity].
-  - pose proof (exec_fields_seq_refines _ _ (fun k ns => H otype value opath k ns) sub s _ _ Es) as Hf.
-    destruct (exec_fields_seq _ sub s) as [r s1]. cbn [fst] in Hf.
-    destruct rkv as [kv|]; [subst r; reflexivity|destruct Hf as [l ->]; eexists; reflexivity].
+  pose proof (exec_fields_mixed_refines (field_conc cfg otype) _ _ (fun k ns => H otype value opath k ns) sub s _ _ Es) as Hf.
+  destruct (exec_fields_mixed _ _ sub s) as [r s1]. cbn [fst] in Hf.
+  destruct rkv as [kv|]; [subst r; reflexivity|destruct Hf as [l ->]; eexists; reflexivity].
 Qed.
 
 (* ---------- list items ---------- *)
@@ -357,7 +453,7 @@ Proof.
   assert (Hk : forall k ns, Rf (rf k ns) (sf k ns)) by (intros; apply resolve_field_refines).
   destruct (spec_fields sf (group_fields flat [])) as [[rkv ro] rc] eqn:Es.
   destruct rc; [destruct rkv; discriminate|].
-  pose proof (exec_fields_conc_refines rf sf Hk (group_fields flat []) st0 _ _ Es) as Hc.
+  pose proof (exec_fields_mixed_refines (field_conc cfg rt) rf sf Hk (group_fields flat []) st0 _ _ Es) as Hc.
   pose proof (exec_fields_seq_refines rf sf Hk (group_fields flat []) st0 _ _ Es) as Hs.
   intros E.
   assert (Hrun : forall run : M (list (string * pyval)),
@@ -371,7 +467,7 @@ Proof.
     destruct rkv as [kv|]; inversion E; subst.
     - eexists. split; reflexivity.
     - destruct Hr as [l ->]. eexists. split; reflexivity. }
-  destruct (o_kind op); [destruct (parent_concurrently cfg)| |destruct (parent_concurrently cfg)]; apply Hrun; assumption.
+  destruct (o_kind op); apply Hrun; assumption.
 Qed.
 
 End Refine.
